@@ -245,6 +245,267 @@ def rule_order(ck, facts):
     ck.floor(R, "layout_concatenations_checked", concats, 6)
 
 
+def rule_cell_operand(ck, facts):
+    R = "C05.cell-operand"
+    ck.rule(R, "where the MIR generator creates a Delay cell, the length it publishes in the skeleton cell and the length operand of the Delay instruction it emits are the same expression (the runtimes size the ring from the instruction, the layout from the cell)")
+    lang = facts.crate(roles.LANG)
+    n = 0
+    for f in lang.fns:
+        if "::compiler::mirgen" not in f.path or roles.is_derived(f) or f.kind != "assoc":
+            continue
+        if not any(s[KIND] == "a" and s[5][0] == "agg" and s[5][1][0] == "adt" and s[5][1][1] == SKEL and s[5][1][3] == "Delay" for _, s in f.all_stmts()):
+            continue
+        sx = SymEx(f, max_paths=200, max_steps=8000, facts=facts)
+        try:
+            paths = sx.run(0)
+        except PathLimit:
+            paths = sx.paths
+        verdict = None
+        for p in paths:
+            if p.end != "return":
+                continue
+            cell = None
+            instr = None
+            for e in p.events:
+                if e[0] == "call":
+                    for a in e[2]:
+                        x = a
+                        while x[0] in ("ref", "deref"):
+                            x = x[1]
+                        if x[0] == "agg" and x[1].endswith("StateTreeSkeleton::Delay"):
+                            cell = x[2][0]
+                        if x[0] == "agg" and x[1] == roles.MIR_INSTR + "::Delay":
+                            instr = x[2][0]
+            # the cell may be bound to a local first
+            for l, v in p.env.items():
+                if v[0] == "agg" and v[1].endswith("StateTreeSkeleton::Delay"):
+                    cell = v[2][0]
+                if v[0] == "agg" and v[1] == roles.MIR_INSTR + "::Delay":
+                    instr = v[2][0]
+            if cell is not None and instr is not None:
+                verdict = (cell == instr, show(cell)[:80], show(instr)[:80])
+        n += 1
+        key = "delay-len|%s" % f.short.split("::")[-1]
+        if verdict is None:
+            ck.bad(R, "unanalysable|%s" % f.short.split("::")[-1], "could not relate the Delay cell and the Delay instruction built in %s" % f.short, f.where())
+        elif verdict[0]:
+            ck.ok(R, key, {"fn": f.short, "len": verdict[1]})
+        else:
+            ck.bad(R, key, "%s publishes a Delay cell of length %s but emits a Delay instruction with length %s: the ring buffer the runtimes allocate is not the cell the layout describes (its last words overlap the next cell)" % (f.short, verdict[1], verdict[2]), f.where())
+    ck.floor(R, "delay_cell_sites", n, 1)
+
+
+def _split_top(t):
+    out, depth, cur = [], 0, ""
+    for ch in t:
+        if ch in "<([":
+            depth += 1
+        elif ch in ">)]":
+            depth -= 1
+        if ch == "," and depth == 0:
+            out.append(cur.strip())
+            cur = ""
+        else:
+            cur += ch
+    if cur.strip():
+        out.append(cur.strip())
+    return out
+
+
+def states_field_index(ret_ty):
+    """index of the Vec<StateTreeSkeleton> component in a (possibly Option-wrapped) tuple return type"""
+    t = ret_ty.strip()
+    if t.startswith("std::option::Option<") and t.endswith(">"):
+        t = t[len("std::option::Option<"):-1].strip()
+    if not (t.startswith("(") and t.endswith(")")):
+        return None
+    parts = _split_top(t[1:-1])
+    for i, p in enumerate(parts):
+        if p.startswith("std::vec::Vec<") and "StateTreeSkeleton" in p and not p.startswith("std::vec::Vec<("):
+            return i
+    return None
+
+
+def _uses_states(e, call_repr, j, depth=0):
+    """does expression e contain field j of (an unwrapping of) the given call result, or the whole result?"""
+    if not isinstance(e, tuple) or depth > 40:
+        return False
+    if e and e[0] == "call" and repr(("call", e[1], e[2])) == call_repr:
+        return True  # the whole result flows on
+    if e and e[0] == "fld":
+        b = e[1]
+        for _ in range(4):
+            if isinstance(b, tuple) and b and b[0] in ("ref", "deref"):
+                b = b[1]
+            elif isinstance(b, tuple) and b and b[0] == "fld" and b[2] == 0 and isinstance(b[1], tuple) and b[1] and b[1][0] == "down":
+                b = b[1][1]
+            else:
+                break
+        if isinstance(b, tuple) and b and b[0] == "call" and repr(("call", b[1], b[2])) == call_repr:
+            return e[2] == j  # a projection of the result: only the states component counts
+    return any(_uses_states(x, call_repr, j, depth + 1) for x in e if isinstance(x, tuple))
+
+
+def _rv_places(rv):
+    """(place, mode) for every place read by an rvalue"""
+    k = rv[0]
+    ops = []
+    if k == "use":
+        ops = [rv[1]]
+    elif k == "ref":
+        yield rv[1], ("refmut" if rv[2] else "ref")
+    elif k == "raw":
+        yield rv[1], "raw"
+    elif k == "disc":
+        yield rv[1], "disc"
+    elif k == "agg":
+        ops = rv[2]
+    elif k == "bin":
+        ops = [rv[2], rv[3]]
+    elif k in ("un", "cast"):
+        ops = [rv[2]]
+    elif k == "repeat":
+        ops = [rv[1]]
+    for op in ops:
+        if op[0] in ("cp", "mv"):
+            yield op[1], op[0]
+
+
+def _carries(ty):
+    return "StateTreeSkeleton" in ty
+
+
+def states_result(f):
+    """does f return (a tuple / Option of a tuple containing) a state-skeleton list?"""
+    t = f.local_ty(0)
+    return states_field_index(t) is not None
+
+
+def dropped_states_sites(f, is_eval):
+    """Must-pass-through on the CFG of f.  For every call site whose callee satisfies is_eval: the locals that may hold
+    (part of) the returned state list are computed by forward propagation (only locals whose type can carry a
+    skeleton); a block `uses` the list when it moves it into the return place, stores it behind a pointer, or passes it
+    (not by shared reference) to a call whose result cannot carry it.  The edges taken when the (Option / ControlFlow)
+    result is None / Break are removed.  A return reachable from the call without passing a use = dropped list."""
+    out = []
+    n_sites = 0
+    for b, t in f.calls():
+        c = callee(t) or ""
+        if not is_eval(c):
+            continue
+        if t[7] is None or t[6] is None:
+            continue
+        n_sites += 1
+        d = t[6][0]
+        if d == 0:
+            continue  # tail call: the result is the returned value
+        T = {d}
+        changed = True
+        while changed:
+            changed = False
+            for bb, st in f.all_stmts():
+                if st[KIND] != "a":
+                    continue
+                dst = st[4]
+                if dst[0] in T or dst[0] == 0 or (dst[1] and dst[1][0] == "*"):
+                    continue
+                if not _carries(f.local_ty(dst[0])):
+                    continue
+                if any(pl[0] in T for pl, _ in _rv_places(st[5])):
+                    T.add(dst[0])
+                    changed = True
+            for bb, tt in f.calls():
+                if tt[6] is None or tt[6][0] in T or tt[6][0] == 0 or not _carries(f.local_ty(tt[6][0])):
+                    continue
+                if any(a[0] in ("cp", "mv") and a[1][0] in T for a in tt[5]):
+                    T.add(tt[6][0])
+                    changed = True
+        use = set()
+        cut = set()
+        for bb, st in f.all_stmts():
+            if st[KIND] != "a":
+                continue
+            dst = st[4]
+            reads = [(pl, m) for pl, m in _rv_places(st[5]) if pl[0] in T]
+            if not reads:
+                continue
+            if dst[0] == 0 or (dst[1] and dst[1][0] == "*" and dst[0] not in T):
+                use.add(bb)
+            if st[5][0] == "disc":
+                ty = st[5][2]
+                none_val = 0 if ty.startswith("std::option::Option<") else 1 if ty.startswith("std::ops::ControlFlow<") else None
+                tt = f.term(bb)
+                if none_val is not None and tt[KIND] == "switch" and tt[4][0] in ("cp", "mv") and tt[4][1][0] == dst[0]:
+                    listed = {int(v): tb for v, tb in tt[6]}
+                    if none_val in listed:
+                        cut.add((bb, listed[none_val]))
+                    elif len(listed) == 1:
+                        cut.add((bb, tt[7]))
+        for bb, tt in f.calls():
+            targs = [a for a in tt[5] if a[0] in ("cp", "mv") and a[1][0] in T]
+            if not targs:
+                continue
+            nm = (callee(tt) or "").split("::")[-1]
+            if tt[6] is not None and tt[6][0] == 0:
+                use.add(bb)
+                continue
+            if tt[6] is not None and _carries(f.local_ty(tt[6][0])):
+                continue  # propagated
+            if nm in ("drop", "drop_in_place"):
+                continue
+            for a in targs:
+                lt = f.local_ty(a[1][0])
+                if a[1][1] or not (lt.startswith("&") and not lt.startswith("&mut")):
+                    use.add(bb)
+        # reachability to a return avoiding use blocks
+        seen = set()
+        todo = [t[7]]
+        hit = None
+        while todo:
+            x = todo.pop()
+            if x in seen or f.is_cleanup(x):
+                continue
+            seen.add(x)
+            if x in use:
+                continue
+            tx = f.term(x)
+            if tx[KIND] == "return":
+                hit = x
+                break
+            for y in f.succs(x):
+                if (x, y) not in cut:
+                    todo.append(y)
+        if hit is not None:
+            out.append((b, t, c))
+    return n_sites, out
+
+
+def rule_no_dropped_states(ck, facts):
+    R = "C05.states-flow"
+    ck.rule(R, "in every MIR-generator function that returns a state-skeleton list: from each call that returns such a list, every path to a return passes a use of that list (moved into the returned value, stored, or handed to another call), except the paths on which the call's Option result is None: a dropped list means cells that exist at run time are missing from the published layout")
+    lang = facts.crate(roles.LANG)
+    producers = {f.path for f in lang.fns if "::compiler::mirgen::" in f.path and f.kind in ("assoc", "fn", "closure") and states_result(f)}
+    ck.floor(R, "state_list_producers", len(producers), 10)
+    n = 0
+    for f in lang.fns:
+        if f.path not in producers:
+            continue
+        cov = cover.coverage(facts, f, roles.EXPR)
+        k, bad = dropped_states_sites(f, lambda c: c in producers)
+        n += k
+        groups = {}
+        for b, t, c in bad:
+            arm = "-"
+            if cov and len(cov.primary_handled()) > 5:
+                arm = "/".join(sorted(v for v in cov.primary_handled() if cov.arm_target(v) is not None and b in reachable(f, cov.arm_target(v), stop=[cov.primary.block]))) or "-"
+            groups.setdefault((arm, c.split("::")[-1]), []).append(t)
+        for (arm, nm), ts in sorted(groups.items()):
+            ck.bad(R, "dropped|%s|%s|%s" % (f.short.split("::")[-1], arm, nm), "%s%s: the state list returned by %s (the cells of the evaluated sub-expressions) can reach a return without being used: those cells exist at run time but are missing from the published layout" % (f.short, (" (arm %s)" % arm) if arm != "-" else "", nm), f.where(ts[0]))
+        if k and not bad:
+            ck.ok(R, "flow|%s" % f.short.split("::")[-1], {"function": f.short, "call_sites": k})
+    ck.floor(R, "evaluation_results_tracked", n, 40)
+
+
 def rule_accounting(ck, facts):
     R = "C05.accounting"
     ck.rule(R, "every construction of Instruction::PushStateOffset(n) in the MIR generator happens on a path that also adds n to ContextData.push_sum (the amount popped at function exit); PopStateOffset is emitted with push_sum")
@@ -337,6 +598,8 @@ def rule_cursor(ck, facts):
 def run(ck, facts, tier):
     rule_sizes(ck, facts)
     rule_order(ck, facts)
+    rule_cell_operand(ck, facts)
+    rule_no_dropped_states(ck, facts)
     rule_accounting(ck, facts)
     rule_cursor(ck, facts)
     ck.not_decided("that the cursor value at each access equals the layout's offset on a run; VM/WASM flat state-word equality; `cursor back at origin after dsp` as a run-time fact")
